@@ -148,6 +148,11 @@ class PairIter:
     def read(self, idx_node):
         base = SX.show(idx_node['base'])
         if base != self.amp:
+            b = SX.strip(idx_node['base'])
+            arr = getattr(self, 'arrays', {}).get(b.get('id')) if SX.is_node(b) else None
+            k = SX.strip(idx_node['i'])
+            if arr is not None and SX.is_node(k) and k.get('k') == 'int' and 0 <= k['v'] < len(arr):
+                return arr[k['v']]
             raise KS.Unfoldable('read of ' + SX.show(idx_node)[:40])
         c = self.cell(idx_node['i'])
         if c in self.cells:
